@@ -146,7 +146,7 @@ def gen(R):
             elif kind == "executor":
                 steps.append(["executor", R.choice([3, -1])])
             elif kind == "unique":
-                steps.append(["unique", f"name-{pid}-{j}"])
+                steps.append(["unique", f"name-{pid}-{R.int(0, 1)}"])  # also the same name twice
             elif kind == "contest":
                 # this run owns a name; a child asks the reaper to cancel a sleeping sibling and, in the same instant,
                 # claims the name with kill_me=True: the child has to end at that statement
@@ -386,6 +386,15 @@ def analyse(case, r_fault, r_clean):
                         continue
                     if (s_[1], ci) in done_steps or r["states"].get(s_[1]) != "cancelled":
                         problems.append(f"{label}:kill-me-loser-continued")
+        # 3c. a run never dies inside task.wait / task.sleep / task.create / task.unique (only cancellation ends it there):
+        #     waiting for a task that has already ended is an ordinary wait
+        started = {(x[1][1], x[1][2]) for x in r["recs"] if x[1][0] == "step"}
+        for t in case["tasks"]:
+            progs = [(t["pid"], t["steps"])] + [(s_[1], s_[2]) for s_ in t["steps"] if s_[0] == "create"]
+            for pid, steps in progs:
+                for i, s_ in enumerate(steps):
+                    if s_[0] in ("wait", "sleep", "create", "unique") and (pid, i) in started and (pid, i) not in done_steps and r["states"].get(pid) == "done":
+                        problems.append(f"{label}:run-died-in-{s_[0]}")
         # 4. registries are clean at quiescence
         if r["left"]["our_tasks"] != r["base"]["our_tasks"] or r["left"]["task2cb"] != r["base"]["task2cb"] or r["left"]["task2context"] != r["base"]["task2context"] or r["left"]["unique"]:
             problems.append(f"{label}:registry-not-clean")
